@@ -84,6 +84,7 @@ type c20Case struct {
 	QLen    int         `json:"qlen"`
 	FlushMs float64     `json:"flush_ms"`
 	Retries int         `json:"retries"`
+	WallMs  float64     `json:"wall_ms"`
 	Note    string      `json:"note,omitempty"`
 	NoCoq   bool        `json:"no_coq,omitempty"`
 	SelfOf  int         `json:"self_of,omitempty"` // > 0: self-test derived from case SelfOf-1 by deleting a required Write
@@ -103,7 +104,7 @@ type c20Writer struct {
 	prefix bool
 	delay  time.Duration
 	gate   chan struct{} // non-nil: the first Write blocks until it is closed
-	gated  int32
+	gated  *int32
 	sc     *c20Scenario
 	mu     sync.Mutex
 	recs   []c20Rec
@@ -114,7 +115,7 @@ type c20Writer struct {
 func (w *c20Writer) NeedPrefix() bool { return w.prefix }
 
 func (w *c20Writer) Write(v []byte) {
-	if w.gate != nil && atomic.CompareAndSwapInt32(&w.gated, 0, 1) {
+	if w.gate != nil && atomic.CompareAndSwapInt32(w.gated, 0, 1) {
 		<-w.gate
 	}
 	g, n, msg := c20Parse(w.sc, w, v)
@@ -284,14 +285,13 @@ func c20RunScenario(sc c20Scenario) c20ChildOut {
 		env.file = f
 	}
 	var gate chan struct{}
+	var gated int32
 	if sc.Mode == "fullq" {
 		gate = make(chan struct{})
 	}
 	for w := 0; w < sc.W; w++ {
 		wr := &c20Writer{id: w, prefix: w%2 == 1, delay: time.Duration(sc.Delay) * time.Microsecond, sc: &sc, file: env.file}
-		if w == 0 {
-			wr.gate = gate
-		}
+		wr.gate, wr.gated = gate, &gated // fullq: the first Write (on whichever writer) blocks until the gate opens
 		lg := rogger.GetLogger(fmt.Sprintf("c20-%d", w))
 		lg.SetWriter(wr)
 		if w%4 == 3 {
@@ -693,7 +693,8 @@ func c20IsTiming(sig string) bool {
 }
 
 func c20SmallBacklog(sc c20Scenario) bool {
-	return sc.Mode != "fullq" && sc.G*(sc.N+sc.LastN+1)*(sc.Delay+20) < 200000 // microseconds of writer time
+	// at most ~130 sleeping Writes (a millisecond or two each), or a few thousand immediate ones
+	return sc.Mode != "fullq" && (sc.Delay == 0 || sc.G*(sc.N+sc.LastN+1) <= 140)
 }
 
 // c20Run runs one scenario; a failure that depends on a time limit counts only when it reproduces three times in a row.
@@ -701,6 +702,8 @@ func c20Run(c *c20Case) []Failure {
 	if c.SelfOf > 0 { // self-test cases are derived after the recorded ones (c20SelfTests)
 		return nil
 	}
+	t0 := time.Now()
+	defer func() { c.WallMs = float64(time.Since(t0)) / 1e6 }()
 	for attempt := 0; ; attempt++ {
 		sc := c.Sc
 		if sc.Mode == "panic" {
@@ -780,10 +783,16 @@ func c20Gen(tier string, rng *rand.Rand) []c20Case {
 			sc.N = 1 + rng.Intn(60)
 			sc.Last = []int{0, 30, 60, 90, 100}[rng.Intn(5)]
 			sc.Delay = []int{0, 0, 5, 50}[rng.Intn(4)]
+			if sc.Delay > 0 { // a sleeping writer costs a millisecond or more per entry whatever the nominal delay
+				sc.N = 1 + 80/sc.G
+			}
 		case "late":
 			sc.G = 1 + rng.Intn(8)
 			sc.N = 1 + rng.Intn(50)
 			sc.Delay = []int{0, 20, 100, 300}[rng.Intn(4)]
+			if sc.Delay > 0 {
+				sc.N = 1 + 80/sc.G
+			}
 		case "fullq":
 			sc.G = 2 + rng.Intn(8)
 			sc.Last = 1 + rng.Intn(sc.G)
@@ -799,9 +808,9 @@ func c20Gen(tier string, rng *rand.Rand) []c20Case {
 		}
 		return c20Case{Sc: sc, Expect: true}
 	}
-	counts := map[string]int{"forced": 40, "stress": 24, "late": 10, "fullq": 2, "quiesce": 4, "panic": 6}
+	counts := map[string]int{"forced": 200, "stress": 120, "late": 40, "fullq": 4, "quiesce": 12, "panic": 20}
 	if tier == "thorough" {
-		counts = map[string]int{"forced": 600, "stress": 400, "late": 150, "fullq": 12, "quiesce": 40, "panic": 60}
+		counts = map[string]int{"forced": 3000, "stress": 2000, "late": 600, "fullq": 30, "quiesce": 150, "panic": 300}
 	}
 	// the smallest forced case first: one goroutine, one entry inside the window
 	cs = append(cs, c20Case{Sc: c20Scenario{Mode: "forced", G: 1, N: 0, Last: 1, LastN: 1, W: 1, Procs: 2, Seed: 1}, Expect: true})
@@ -921,7 +930,7 @@ func init() {
 			Mismatch: "c20_mismatch",
 			Corr:     "Flush.accepts (specification machine of the log queue / flusher / FlushLogger protocol) on the recorded event trace",
 			Rule:     "distinct (mode, goroutines, writers, window entries, writer delay class, format, GOMAXPROCS, queue occupancy class at the flush) configurations whose trace contains at least one Write",
-			Shard:    16,
+			Shard:    40,
 			Gen:      c20Gen,
 			RunAll: func(cs []c20Case) [][]Failure {
 				fails := make([][]Failure, len(cs))
